@@ -317,9 +317,28 @@ func cmdGen(args []string) {
 				panic("unknown family " + *family)
 			}
 		}
+		if wrapFamilies[*family] && (i%4 == 0 || i%4 == 3) { // (the other indices carry scripted corners: left as written)
+			wrapRolledBack(rand.New(rand.NewSource(*seed*7919+int64(i)*31+5)), s.Steps, 10)
+		}
 		bz, _ := json.Marshal(s)
 		f.Write(bz)
 		f.Write([]byte("\n"))
+	}
+}
+
+// Composite transactions that are rolled back (driver steps "poison" / "twin"): in the walks of these families about one
+// transaction step in `oneIn` is replaced by the same message(s) followed by a message that fails, so the whole branch of
+// the transaction is discarded after the keepers, hooks and caches have seen it.
+var wrapFamilies = map[string]bool{"ledger": true, "positions": true, "chain": true, "orders": true}
+var wrapable = map[string]bool{"swapIn": true, "swapOut": true, "join": true, "exit": true, "bond": true, "unbond": true, "levOpen": true, "levClose": true,
+	"perpOpen": true, "perpClose": true, "perpClosePositions": true, "levClosePositions": true, "claim": true, "send": true, "spotOrder": true,
+	"execOrders": true, "commitClaimed": true, "uncommit": true, "incentive": true, "createAssetInfo": true, "cancelSpot": true, "perpOrder": true}
+
+func wrapRolledBack(r *rand.Rand, st []Step, oneIn int) {
+	for i := range st {
+		if wrapable[st[i].S("a")] && r.Intn(oneIn) == 0 {
+			st[i] = Step{"a": pick(r, "poison", "twin"), "inner": map[string]any(st[i])}
+		}
 	}
 }
 
